@@ -31,6 +31,7 @@ type Program struct {
 	files     map[string]*ast.File // filename -> AST (repo packages)
 	repoDir   string
 	loadSecs  float64
+	implCache map[*types.Named]types.Type
 }
 
 func (p *Program) inRepo(fn *ssa.Function) bool {
@@ -285,4 +286,53 @@ func (p *Program) lookupTypeContract(kind string, t types.Type, suffix string) *
 		return c
 	}
 	return nil
+}
+
+// singleImpl returns the only type declared in the repository that implements
+// a repository-declared interface, or nil. Calls through such an interface are
+// resolved to that implementation (class-hierarchy devirtualisation; an
+// assumption listed in the evidence).
+func (p *Program) singleImpl(it types.Type) types.Type {
+	named, ok := it.(*types.Named)
+	if !ok || named.Obj().Pkg() == nil || !strings.HasPrefix(named.Obj().Pkg().Path(), repoModule) {
+		return nil
+	}
+	iface, ok := it.Underlying().(*types.Interface)
+	if !ok || iface.NumMethods() == 0 {
+		return nil
+	}
+	if r, ok := p.implCache[named]; ok {
+		return r
+	}
+	var found []types.Type
+	for _, pk := range p.allPkgs {
+		if !strings.HasPrefix(pk.Path(), repoModule) {
+			continue
+		}
+		sc := pk.Scope()
+		for _, n := range sc.Names() {
+			tn, ok := sc.Lookup(n).(*types.TypeName)
+			if !ok || tn.IsAlias() {
+				continue
+			}
+			t := tn.Type()
+			if _, isI := t.Underlying().(*types.Interface); isI {
+				continue
+			}
+			if types.Implements(t, iface) {
+				found = append(found, t)
+			} else if types.Implements(types.NewPointer(t), iface) {
+				found = append(found, types.NewPointer(t))
+			}
+		}
+	}
+	var r types.Type
+	if len(found) == 1 {
+		r = found[0]
+	}
+	if p.implCache == nil {
+		p.implCache = map[*types.Named]types.Type{}
+	}
+	p.implCache[named] = r
+	return r
 }
